@@ -923,3 +923,67 @@ def lights(unit, name, extent):
     ex.run()
     return {"function": name, "file": fn.get("file") or unit.tu, "line": fn.get("line"), "aliases": ex.ctx.aliases,
             "cnt_writes": ex.ctx.cnt_writes, "reports": ex.ctx.reports}
+
+
+# ----------------------------------------------------------------------------------------------- checker self-test
+
+def run_mutants(pid, mutants, res, jobs=6):
+    """Thorough-tier self-test of a checker on scratch copies of the repository (outside /repo and /verif).
+
+    mutants: [(id, edits, expect)] with edits = [(file, old, new)] plain text replacements or
+    [("sub", file, regex, repl, start_marker, end_marker)] regex replacements between two markers;
+    expect = substring of a `rule=.. construct=..` report line that must appear, or None for a control that must add
+    no report to those of the unchanged tree.  A mutant whose anchor text is gone is stale and only counted."""
+    import concurrent.futures as cf
+    import os
+    import re as _re
+    from . import scratch
+    baseline = {f"rule={v['rule']} construct={v['construct']}:" for v in res.violations}
+
+    def one(m):
+        mid, edits, expect = m
+        try:
+            with scratch.scratch(["include", "src", "cmake", "CMakeLists.txt", "plugin"]) as root:
+                for e in edits:
+                    if e[0] == "sub":
+                        _, f, rx, repl, a, b = e
+                        p = os.path.join(root, f)
+                        s = open(p).read()
+                        if a not in s or b not in s:
+                            return mid, "stale", ""
+                        i, j = s.index(a), s.index(b)
+                        t = _re.sub(rx, repl, s[i:j])
+                        if t == s[i:j]:
+                            return mid, "stale", ""
+                        open(p, "w").write(s[:i] + t + s[j:])
+                    else:
+                        try:
+                            scratch.edit(root, e[0], e[1], e[2])
+                        except RuntimeError:
+                            return mid, "stale", ""
+                rc, out = scratch.run_check(pid, root)
+        except Exception as ex:  # pragma: no cover
+            return mid, "error", str(ex)
+        lines = [l for l in out.splitlines() if "rule=" in l and not l.startswith("KNOWN-FINDING")
+                 and not any(b in l for b in baseline)]
+        if expect is None:
+            return mid, ("silent" if rc != 2 and not lines else "control-fired"), "\n".join(lines[:2]) or out[-300:]
+        if rc == 2:
+            return mid, "refused", out[-300:]
+        return mid, ("fired" if any(expect in l for l in lines) else "missed"), "\n".join(lines[:2])
+
+    res.rule("SELFTEST", "scratch-copy mutants must be reported naming the construct; controls must stay silent", floor=0)
+    with cf.ThreadPoolExecutor(max_workers=jobs) as ex:
+        results = list(ex.map(one, mutants))
+    bad, summary = [], {}
+    for mid, status, detail in results:
+        summary[mid] = status
+        if status in ("fired", "silent"):
+            res.ok("SELFTEST", mid, {"status": status})
+        elif status == "stale":
+            res.count("selftest_stale")
+        else:
+            bad.append((mid, status, detail))
+    res.extra["selftest"] = summary
+    if bad:
+        raise AnalysisError("checker self-test failed: " + "; ".join(f"{m}: {s} [{d[:200]}]" for m, s, d in bad))
